@@ -160,7 +160,7 @@ class Ctx:
         return out
 
     # ------------------------------------------------------------ running
-    def run_family(self, fam, n, seed=None, extra=None, tag="", timeout=1200, model=True):
+    def run_family(self, fam, n, seed=None, extra=None, tag="", timeout=1200, model=True, model_family=None):
         seed = self.seed if seed is None else seed
         d = os.path.join(self.tmp, "%s%s.%d" % (fam, tag, seed))
         os.makedirs(d, exist_ok=True)
@@ -171,7 +171,7 @@ class Ctx:
         rc, out = sh(cmd, timeout=timeout, env=GOENV)
         res = {"dir": d, "rc": rc, "log": out, "family": fam, "seed": seed, "n": n}
         if model:
-            rc2, out2 = sh([os.path.join(VERIF, "bin", "mpbmodel"), fam, d], timeout=timeout)
+            rc2, out2 = sh([os.path.join(VERIF, "bin", "mpbmodel"), model_family or fam, d], timeout=timeout)
             res["model_rc"], res["model_log"] = rc2, out2
         res["wall"] = time.time() - t
         res["stats"] = {}
